@@ -84,7 +84,8 @@ func (g *unigen) defsKW() string {
 	return "$defs"
 }
 
-var anchorNames = []string{"t", "t", "u", "A1", "x-y"}
+// 2020-12 $anchor: [A-Za-z_][-A-Za-z0-9._]* (a leading underscore is allowed, ":" is not)
+var anchorNames = []string{"t", "t", "u", "A1", "x-y", "_x", "_", "a.b", "x_y", "_9-.z"}
 
 // d7AnchorNames: draft-07 plain names may also contain ':' and '.' ([A-Za-z][-A-Za-z0-9_:.]*); 2020-12 $anchor may not hold ':'.
 var d7AnchorNames = []string{"t", "u", "A1", "x-y", "net:port", "a.b", "x_y", "n:", "v1.2-rc_3:x"}
